@@ -917,7 +917,9 @@ class SA(numpy.ndarray):
     """object ndarray whose float casts / float32 views are the identity (REAL) or a cast UF (EUF)."""
 
     def __array_finalize__(self, obj):
-        pass
+        # single-precision tag (only set by checks that model float32 inputs) follows views and copies
+        if getattr(obj, "_is_f32", False):
+            self._is_f32 = True
 
     def __array_wrap__(self, out_arr, context=None, return_scalar=False):
         # reductions to 0-d give the element itself (as NumPy does for plain ndarrays)
